@@ -2,16 +2,24 @@
 
 Workers (harness/c14_worker.py) run the real code under several (PYCAPTION_DEFAULT_LANG, PYTHONHASHSEED) settings.
 Streams
-  A  DFXP documents (tt with/without xml:lang, 1-4 divs with/without xml:lang, attribute-name case) -> DFXPReader
-  B  caption sets (1-4 languages, interleaved / coinciding / disjoint cue times) -> DFXPWriter / SinglePositioning /
-     Legacy x force in {absent, '', a present language, an absent language}: divs parsed with lxml; re-read
-  C  SAMI documents (class -> lang stylesheet, class / lang attribute / neither, en vs en-US prefix shapes, blanks)
-  D  caption sets -> SAMIWriter: body (sync start, paragraphs) parsed with bs4+lxml; re-read with SAMIReader
+  A  DFXP documents: tt with / without / empty xml:lang, 1-5 divs with / without xml:lang, REPEATED languages, NESTED divs,
+     divs without paragraphs, attribute-name case -> DFXPReader.  Oracle: grouping by effective language (every document).
+  B  caption sets (1-4 languages; interleaved / coinciding / disjoint times; equal (start, end) runs; identical texts in
+     several languages; styles and caption classes) -> DFXPWriter / SinglePositioning / Legacy x force; re-read.
+  C  SAMI documents: class -> lang stylesheet, class / inline lang / neither in every order, en vs en-US, blank paragraphs
+     (also as the FIRST paragraph of a language, and languages with blank paragraphs only).  The oracle's language tags
+     come from the GENERATOR's expectation (written from the statement), not from the model.
+  D  caption sets (as B, plus non-millisecond times) -> SAMIWriter: body parsed with bs4+lxml, every paragraph's class
+     resolved to a language through the WRITTEN stylesheet (language-based, not name-based); re-read.
   E  WebVTT lang=, SRT parts, reader lang= (SRT / WebVTT / SCC / MicroDVD)
+  F  pipelines: a READER's output (styles, classes, layouts) fed into a WRITER and read again:
+     SAMI doc -> SAMIReader -> SAMIWriter / DFXP writers -> reader; DFXP doc -> DFXPReader -> SAMIWriter / DFXPWriter.
+  H  2-3 step histories on ONE writer object.
 Correspondence: observation == extracted model (coq/model/Langs.v).  Property oracle: coq/spec/SpecLangs.v ok_*.
+Comparisons stronger than the statement (tt xml:lang on write, blank-paragraph placement, class names, default language of
+reader lang=None) are counted information or model disagreements, never violations.
 """
 import os
-import sys
 import json
 import subprocess
 
@@ -42,19 +50,25 @@ def opt(x):
     return None if x is None else Some(x)
 
 
+def unopt(x):
+    """decoded `option`: [] / [v]"""
+    return x[0] if x else None
+
+
+def wire_tree(nodes):
+    return [[0, n[1]] if n[0] == 0 else [1, opt(n[1]), wire_tree(n[2])] for n in nodes]
+
+
 # ------------------------------------------------------------------------------------------------ generators
-def gen_times(rng, n, shape, k):
-    """n sorted non-overlapping spans in microseconds (multiples of 1000); shape: how language k relates to others"""
+def gen_times(rng, n, shape, k, sub_ms=False):
+    """n sorted non-overlapping spans in microseconds; multiples of 1000 unless sub_ms"""
     spans = []
     if shape == "coinciding":
-        t = 1000000
-        step = 2000000
+        t, step = 1000000, 2000000
     elif shape == "disjoint":
-        t = 1000000 + k * 100000000
-        step = rng.choice([1500000, 3000000])
+        t, step = 1000000 + k * 100000000, rng.choice([1500000, 3000000])
     else:
-        t = rng.randrange(0, 5000) * 1000
-        step = None
+        t, step = rng.randrange(0, 5000) * 1000, None
     for i in range(n):
         if step is None:
             t += rng.choice([0, 1000, 500000, 1234000, 4000000]) if i else 0
@@ -63,26 +77,58 @@ def gen_times(rng, n, shape, k):
             d = rng.choice([1000000, step])
         spans.append((t, t + d))
         t = t + d + (rng.choice([0, 0, 1000, 250000]) if step is None else step - d)
-        if step is None and spans[-1][0] == t and d == 0:
-            t += 1000       # keep (start, end) pairs of one language distinct
+    if sub_ms:
+        out, prev = [], 0
+        for s, e in spans:
+            s2 = max(prev, s + rng.choice([0, 1, 499, 999]))
+            e2 = max(s2, e + rng.choice([0, 1, 500, 999]))
+            out.append((s2, e2))
+            prev = e2
+        spans = out
     return spans
 
 
-def gen_capset(rng, min_cues=1):
+def gen_capset(rng, styled=None, sub_ms=False, concurrent=True):
+    """-> (cs, styles or None, shape, flags). cs: [[lang, [[s, e, text(, class)], ...]], ...]"""
     nl = rng.choice([1, 2, 2, 3, 4])
     langs = rng.sample(LANGS, nl)
     shape = rng.choice(["interleaved", "interleaved", "coinciding", "disjoint"])
+    same_text = shape == "coinciding" and rng.random() < 0.5
+    styled = rng.random() < 0.4 if styled is None else styled
+    flags = {"same_text": same_text, "styled": styled, "equal_spans": False}
+    styles = None
+    if styled:
+        styles = {"narrow": {"margin-left": "5%"}}
+        for l in langs:
+            if rng.random() < 0.7:
+                styles[l.replace("-", "").lower() + "cc"] = {"lang": l, "color": "white"}
+        if rng.random() < 0.3:
+            styles[langs[0]] = {"lang": langs[0]}                 # a class named exactly like the language
+        if rng.random() < 0.3:
+            styles["othercc"] = {"lang": "sv"}                    # declares a language that is not in the set
     cs = []
     for k, l in enumerate(langs):
-        n = rng.randint(min_cues, 5)
+        n = rng.randint(1, 5)
         if rng.random() < 0.06 and (k + 1 < nl or any(c for _, c in cs)):
-            n = 0                   # a language without cues (also as the first language); never all of them
-        cues = [[s, e, "%s cue %d" % (l.replace("-", ""), i)] for i, (s, e) in enumerate(gen_times(rng, n, shape, k))]
+            n = 0
+        cues = []
+        for i, (s, e) in enumerate(gen_times(rng, n, shape, k, sub_ms)):
+            text = "[MUSIC] %d" % i if same_text else "%s cue %d" % (l.replace("-", ""), i)
+            cues.append([s, e, text])
+            if concurrent and rng.random() < 0.12:                # a concurrent cue: same (start, end)
+                cues.append([s, e, text + " bis"])
+                flags["equal_spans"] = True
         if cues and cues[0][0] >= 1000 and rng.random() < 0.12:
-            # a cue ending in millisecond 0: the blank sync at 0 must still be written (last_time = 0 is not None)
             cues.insert(0, [0, rng.choice([0, 900]), "%s cue zero" % l.replace("-", "")])
+        if styled:
+            for c in cues:
+                r = rng.random()
+                if r < 0.35:
+                    c.append(rng.choice(list(styles)))            # own / another language's / layout-only class
+                elif r < 0.45:
+                    c.append("missing")
         cs.append([l, cues])
-    return cs, shape
+    return cs, styles, shape, flags
 
 
 def dfxp_stamp(us):
@@ -91,34 +137,69 @@ def dfxp_stamp(us):
 
 
 def gen_dfxp_doc(rng):
-    tt = rng.choice([None, None, "es", "en", "fr"])
-    nd = rng.choice([1, 2, 2, 3, 4])
-    own_pool = rng.sample(LANGS, nd)
-    divs = []
-    for k in range(nd):
-        own = own_pool[k] if (rng.random() < 0.6 or any(d[0] is None for d in divs)) else None
+    """-> (tt, segments, doc, tree, stats).  tree: the body as the model's dnode tree ([0, cue] = <p>, [1, own lang,
+    kids] = <div>).  segments: what the STATEMENT makes of it, computed here (not by pycaption, not by the model): one
+    entry without cues where a div opens (it registers the language), one entry per <p> under its nearest div, in document
+    order; the language of a div without xml:lang is the nearest enclosing div's that has one (else None = the
+    document's / the default).  Nested divs (depth <= 3, anywhere between the paragraphs) and repeated languages are
+    in-domain."""
+    tt = rng.choice([None, None, "es", "en", "fr", ""])
+    attr = lambda: rng.choice(["xml:lang", "xml:lang", "XML:LANG"])  # noqa: E731
+    pool = rng.sample(LANGS, 4)
+    flat = []                                                         # segments in document order
+    counter = [0]
+    stats = {"nested": 0, "inherits_outer": 0, "p_after_inner_div": 0}
+
+    def div(depth, inherited):
+        own = rng.choice(pool) if rng.random() < 0.65 else None
         if rng.random() < 0.04:
             own = ""
-        if rng.random() < 0.05 and k:
-            own = divs[0][0]          # duplicate language (outside the domain; counted)
-        cues = [[s, e, "d%dc%d text" % (k, i)] for i, (s, e) in enumerate(gen_times(rng, rng.randint(1, 4), "interleaved", k))]
-        divs.append([own, cues])
-    attr = lambda: rng.choice(["xml:lang", "xml:lang", "XML:LANG"])  # noqa: E731
+        eff = own if own is not None else inherited
+        if depth:
+            stats["nested"] += 1
+            stats["inherits_outer"] += int(own is None and inherited is not None)
+        k = counter[0]
+        counter[0] += 1
+        ncue = rng.choice([0, 1, 1, 2, 3])
+        cues = [[s, e, "d%dc%d text" % (k, i)] for i, (s, e) in enumerate(gen_times(rng, ncue, "interleaved", k))]
+        flat.append([eff, []])
+        out = ['<div' + ('' if own is None else ' %s="%s"' % (attr(), own)) + '>']
+        kids = []
+        inner_at = set(rng.sample(range(len(cues) + 1), rng.choice([1, 1, 2]) if len(cues) else 1)) \
+            if depth < 2 and rng.random() < 0.25 else set()
+
+        def inner():
+            x, node = div(depth + 1, eff)
+            out.extend(x)
+            kids.append(node)
+        for i, (s, e, t) in enumerate(cues):
+            if i in inner_at:
+                inner()
+                stats["p_after_inner_div"] += 1
+            out.append('<p begin="%s" end="%s">%s</p>' % (dfxp_stamp(s), dfxp_stamp(e), t))
+            flat.append([eff, [[s, t]]])
+            kids.append([0, [s, t]])
+        if len(cues) in inner_at:
+            inner()
+        out.append('</div>')
+        return out, [1, own, kids]
+    body, tree = [], []
+    for _ in range(rng.choice([1, 2, 2, 3, 4])):
+        x, node = div(0, None)
+        body += x
+        tree.append(node)
     doc = ['<?xml version="1.0" encoding="utf-8"?>', '<tt xmlns="http://www.w3.org/ns/ttml"'
-           + ('' if tt is None else ' %s="%s"' % (attr(), tt)) + '>', '<body>']
-    for own, cues in divs:
-        doc.append('<div' + ('' if own is None else ' %s="%s"' % (attr(), own)) + '>')
-        for s, e, t in cues:
-            doc.append('<p begin="%s" end="%s">%s</p>' % (dfxp_stamp(s), dfxp_stamp(e), t))
-        doc.append('</div>')
-    doc += ['</body>', '</tt>']
-    return tt, divs, "\n".join(doc)
+           + ('' if tt is None else ' %s="%s"' % (attr(), tt)) + '>', '<body>'] + body + ['</body>', '</tt>']
+    return tt, flat, "\n".join(doc), tree, stats
 
 
 SAMI_CLASSES = [("ENCC", "en"), ("USCC", "en-US"), ("FRCC", "fr"), ("DECC", "de"), ("PTCC", "pt-BR"), ("ENGB", "en-GB")]
 
 
-def gen_sami_doc(rng):
+def gen_sami_doc(rng, default):
+    """-> (styles, ps, tags_cut, tags_full, doc).  tags_*: the language the STATEMENT assigns to every paragraph ("by
+    class / lang attribute; none -> the configured default"), with an inline lang taken as its two-letter primary
+    subtag (cut, what pycaption documents) or whole (full) - both readings are accepted by the oracle."""
     classes = rng.sample(SAMI_CLASSES, rng.randint(1, 4))
     if rng.random() < 0.5 and ("ENCC", "en") not in classes:
         classes.append(("ENCC", "en"))
@@ -127,16 +208,15 @@ def gen_sami_doc(rng):
     styles = [[c.lower(), l] for c, l in classes] + [["plain", None], ["narrow", None]]
     css = (" ".join(".%s {lang: %s;}" % (c, l) for c, l in classes)
            + " .PLAIN {color: #ffffff;} .NARROW {margin-left: 5%;}")
-    ps = []
-    body = []
-    t = rng.randrange(0, 3000)
-    seen = set()
-    n_sync = rng.randint(1, 6)
+    ps, body, tags_cut, tags_full = [], [], [], []
+    t = 0 if rng.random() < 0.25 else rng.randrange(0, 3000)
+    first = True
 
     def astr_of(attrs):
         return "".join(' %s="%s"' % (a, v) for a, v in attrs)
-    for si in range(n_sync):
-        t += rng.choice([500, 1000, 2500])
+    for si in range(rng.randint(1, 6)):
+        if not (first and t == 0):
+            t += rng.choice([500, 1000, 2500])
         body.append("<SYNC start=%d>" % t)
         for pi in range(rng.randint(1, 4)):
             r = rng.random()
@@ -144,52 +224,71 @@ def gen_sami_doc(rng):
             inline = rng.choice(["fr", "en-US", "en", "de-AT", "e", "fr", l])
             lname = rng.choice(["lang", "lang", "LANG"])
             nolang_cls = rng.choice(["NARROW", "PLAIN", "narrow", "Unknown"])
-            if r < 0.35:                                  # class that declares the language
-                name = rng.choice([c, c, c.lower(), c.capitalize()])
-                attrs, lang = [["class", name]], l
-            elif r < 0.45:                                # inline lang only, no class
-                attrs, lang = [[lname, inline]], inline[:2]
-            elif r < 0.52:                                # neither
+            if r < 0.35:
+                attrs, lang = [["class", rng.choice([c, c, c.lower(), c.capitalize()])]], (l, l)
+            elif r < 0.45:
+                attrs, lang = [[lname, inline]], (inline[:2], inline)
+            elif r < 0.52:
                 attrs, lang = [], None
-            elif r < 0.58:                                # class without a language (layout / colour / unknown), nothing else
+            elif r < 0.58:
                 attrs, lang = [["class", nolang_cls]], None
-            elif r < 0.72:                                # class WITHOUT a language, then an inline lang: falls through
-                attrs, lang = [["class", nolang_cls], [lname, inline]], inline[:2]
-            elif r < 0.80:                                # inline lang, then a class without a language
-                attrs, lang = [[lname, inline], ["class", nolang_cls]], inline[:2]
-            elif r < 0.90:                                # class with a language, then an inline lang (same / different)
-                val = rng.choice([l, inline])
-                attrs, lang = [["class", c], [lname, val]], l
-            else:                                         # inline lang, then a class with a language
-                attrs, lang = [[lname, inline], ["class", c]], inline[:2]
-            astr = astr_of(attrs)
-            if not lang:
-                lang = None
-            blank = rng.random() < 0.1 and lang in seen
+            elif r < 0.72:
+                attrs, lang = [["class", nolang_cls], [lname, inline]], (inline[:2], inline)
+            elif r < 0.80:
+                attrs, lang = [[lname, inline], ["class", nolang_cls]], (inline[:2], inline)
+            elif r < 0.90:
+                attrs, lang = [["class", c], [lname, rng.choice([l, inline])]], (l, l)
+            else:
+                attrs, lang = [[lname, inline], ["class", c]], (inline[:2], inline)
+            lang = lang or (default, default)
+            blank = rng.random() < (0.5 if first else 0.12)     # also as the very first paragraph of a language
+            first = False
             text = "&nbsp;" if blank else "s%dp%d words" % (si, pi)
-            if not blank:
-                seen.add(lang)
-            ps.append([attrs, t, " " if blank else text])
-            body.append("<P%s>%s" % (astr, text))
+            ps.append([attrs, t, " " if blank else text])
+            tags_cut.append([lang[0] or default, [t * 1000, " " if blank else text], blank])
+            tags_full.append([lang[1] or default, [t * 1000, " " if blank else text], blank])
+            body.append("<P%s>%s" % (astr_of(attrs), text))
         body.append("</SYNC>")
-    doc = ('<SAMI><HEAD><TITLE>t</TITLE><STYLE TYPE="text/css"><!-- P {margin-left: 1pt;} %s --></STYLE></HEAD><BODY>\n%s\n'
+    doc = ('<SAMI><HEAD><TITLE>t</TITLE><STYLE TYPE="text/css"><!-- P {margin-left: 1%%;} %s --></STYLE></HEAD><BODY>\n%s\n'
            '</BODY></SAMI>' % (css, "\n".join(body)))
-    return styles, ps, doc
+    return styles, ps, tags_cut, tags_full, doc
 
 
-# ------------------------------------------------------------------------------------------------ checks
+# ------------------------------------------------------------------------------------------------ helpers
 def as_capset(langs):
     return [[l, [[c[0], c[1]] for c in cues]] for l, cues in langs]
 
 
 def start_text(cs):
-    return [[l, [[s, t] for s, e, t in cues]] for l, cues in cs]
+    return [[l, [[c[0], c[2]] for c in cues]] for l, cues in cs]
+
+
+def merged(cs):
+    """what the single-positioning and legacy writers make of equal (start, end) runs: one cue, texts joined"""
+    out = []
+    for l, cues in cs:
+        res = []
+        for c in cues:
+            if res and res[-1][0] == c[0] and res[-1][1] == c[1]:
+                res[-1][2] += " " + c[2]
+            else:
+                res.append([c[0], c[1], c[2]])
+        out.append([l, res])
+    return out
+
+
+def ms_floor(cs):
+    return [[l, [[c[0] // 1000 * 1000, c[1]] for c in cues]] for l, cues in cs]
+
+
+def abstract_styles(styles):
+    return [[k, v.get("lang")] for k, v in sorted((styles or {}).items())]
 
 
 class Acc:
     def __init__(self):
         self.res = {"evaluations": 0, "nontrivial": set(), "violations": [], "disagreements": [], "distribution": {},
-                    "streams": 5, "notes": []}
+                    "streams": 7, "notes": []}
 
     def count(self, k, n=1):
         d = self.res["distribution"]
@@ -205,16 +304,38 @@ class Acc:
 def make_reqs(tag, info, default):
     """model requests of one case, from its plain-JSON abstract input"""
     if tag == "A":
-        return [(1400, [default, opt(info["tt"]), [[opt(o), c] for o, c in info["pdivs"]]])]
+        return [(1412, [default, opt(info["tt"]), wire_tree(info["tree"])])]
     if tag == "B":
         return [(1403 if info["writer"] == "legacy" else 1402, [info["force"], info["cs"]])]
     if tag == "C":
         return [(1405, [default, [[c, opt(l)] for c, l in info["styles"]], info["ps"]])]
     if tag == "D":
-        return [(1407, info["cs"])]
+        return [(1407, info["mcs"]),
+                (1411, ["", None, [[c, opt(l)] for c, l in info["astyles"]], [l for l, _ in info["mcs"]]])]
     if tag == "E":
         return [(1409, [opt(info["pick"]), info["cs"]])]
     return []
+
+
+# ------------------------------------------------------------------------------------------------ jobs
+def dfxp_job(rng, cs, styles, shape, flags, writer=None, force="?"):
+    writer = writer or rng.choice(["main", "main", "single", "legacy"])
+    langs = [l for l, _ in cs]
+    if force == "?":
+        force = rng.choice([None, "", rng.choice(langs), rng.choice(langs), "xx"])
+    want = merged(cs) if writer != "main" else cs
+    job = {"op": "dfxp_write", "writer": writer, "force": force, "cs": cs}
+    if styles:
+        job["styles"] = styles
+    return "B", job, {"cs": start_text(want), "force": force or "", "writer": writer, "shape": shape, "flags": flags}
+
+
+def sami_job(cs, styles, shape, flags):
+    job = {"op": "sami_write", "cs": cs}
+    if styles:
+        job["styles"] = styles
+    mcs = [[l, [c[:3] for c in cues]] for l, cues in cs]
+    return "D", job, {"cs": mcs, "mcs": mcs, "astyles": abstract_styles(styles), "shape": shape, "flags": flags}
 
 
 def stream_jobs(ctx, default):
@@ -222,88 +343,117 @@ def stream_jobs(ctx, default):
     rng = ctx.rng
     out = []
     for _ in range(ctx.n(150, 3000)):
-        tt, divs, doc = gen_dfxp_doc(rng)
-        pdivs = [[o, [[s, t] for s, e, t in cues]] for o, cues in divs]
-        out.append(("A", {"op": "dfxp_read", "doc": doc}, None, {"tt": tt, "pdivs": pdivs}))
+        tt, flat, doc, tree, stats = gen_dfxp_doc(rng)
+        out.append(("A", {"op": "dfxp_read", "doc": doc}, {"tt": tt, "pdivs": flat, "tree": tree, "stats": stats}))
     for _ in range(ctx.n(150, 3000)):
-        cs, shape = gen_capset(rng)
-        writer = rng.choice(["main", "main", "single", "legacy"])
-        langs = [l for l, _ in cs]
-        force = rng.choice([None, "", rng.choice(langs), rng.choice(langs), "xx"])
-        st = start_text(cs)
-        out.append(("B", {"op": "dfxp_write", "writer": writer, "force": force, "cs": cs}, None,
-                    {"cs": st, "force": force or "", "writer": writer, "shape": shape}))
+        cs, styles, shape, flags = gen_capset(rng)
+        out.append(dfxp_job(rng, cs, styles, shape, flags))
     for _ in range(ctx.n(200, 4000)):
-        styles, ps, doc = gen_sami_doc(rng)
-        out.append(("C", {"op": "sami_read", "doc": doc}, None, {"styles": styles, "ps": ps}))
+        styles, ps, tc, tf, doc = gen_sami_doc(rng, default)
+        out.append(("C", {"op": "sami_read", "doc": doc}, {"styles": styles, "ps": ps, "tags_cut": tc, "tags_full": tf}))
     for _ in range(ctx.n(200, 4000)):
-        cs, shape = gen_capset(rng)
-        out.append(("D", {"op": "sami_write", "cs": cs}, None, {"cs": cs, "shape": shape}))
+        # the quantifier says "non-overlapping within a language": no concurrent cues for the SAMI writer
+        cs, styles, shape, flags = gen_capset(rng, sub_ms=rng.random() < 0.3, concurrent=False)
+        out.append(sami_job(cs, styles, shape, flags))
+    # fixed shapes (audit W1 / W2 as API-built sets, identical texts, the `en` / `en-US` pair)
+    out.append(sami_job([["en", [[1000000, 2000000, "e1", "encc"]]], ["fr", [[1000000, 2000000, "f1"]]]],
+                        {"frcc": {"lang": "fr"}, "encc": {"lang": "en"}}, "coinciding", {"fixed": "W1"}))
+    out.append(sami_job([["en", [[1000000, 2000000, "e1", "encc"]]], ["fr", [[1000000, 2000000, "f1", "encc"]]]],
+                        {"frcc": {"lang": "fr"}, "encc": {"lang": "en"}}, "coinciding", {"fixed": "W2"}))
+    out.append(sami_job([["en-US", [[1000000, 2000000, "[MUSIC]"]]], ["en", [[1000000, 2000000, "[MUSIC]"]]]], None,
+                        "coinciding", {"fixed": "same-text"}))
     for _ in range(ctx.n(60, 1000)):
-        cs, shape = gen_capset(rng)
+        cs, styles, shape, flags = gen_capset(rng)
         langs = [l for l, _ in cs]
         pick = rng.choice(["absent-arg", None, rng.choice(langs), langs[-1], "xx"])
         j = {"op": "vtt_write", "cs": cs}
+        if styles:
+            j["styles"] = styles
         if pick != "absent-arg":
             j["lang"] = pick
         mp = None if pick in ("absent-arg", None) else pick
-        out.append(("E", j, None, {"cs": start_text(cs), "pick": mp}))
+        out.append(("E", j, {"cs": ms_floor(start_text(cs)), "pick": mp}))
     for _ in range(ctx.n(20, 300)):
-        cs, shape = gen_capset(rng)
-        out.append(("E2", {"op": "srt_write", "cs": cs}, None, {"cs": start_text(cs)}))
+        cs, styles, shape, flags = gen_capset(rng, styled=False)
+        out.append(("E2", {"op": "srt_write", "cs": cs}, {"cs": ms_floor(start_text(merged(cs)))}))
     docs = {"srt": "1\n00:00:01,000 --> 00:00:02,000\nx\n", "webvtt": "WEBVTT\n\n00:01.000 --> 00:02.000\nx\n",
             "scc": "Scenarist_SCC V1.0\n\n00:00:01:00\t94ae 94ae 9420 9420 9470 9470 6162 942c 942c 942f 942f\n\n"
                    "00:00:03:00\t942c 942c\n\n", "microdvd": "{0}{0}25.0\n{25}{50}x\n"}
     for fmt, doc in docs.items():
-        for lang in (None, "fr", "zh-Hans", "en"):
-            out.append(("E3", {"op": "reader_lang", "fmt": fmt, "doc": doc, "lang": lang}, None, {"fmt": fmt, "lang": lang}))
-    out = [(tag, job, make_reqs(tag, info, default), info) for tag, job, _, info in out]
-    return out + history_items(ctx, default)
+        for lang in (None, "fr", "zh-Hans", "en", rng.choice(LANGS)):
+            out.append(("E3", {"op": "reader_lang", "fmt": fmt, "doc": doc, "lang": lang}, {"fmt": fmt, "lang": lang}))
+    # F: pipelines reader -> writer -> reader
+    for _ in range(ctx.n(120, 2500)):
+        if rng.random() < 0.6:
+            styles, ps, tc, tf, doc = gen_sami_doc(rng, default)
+            src = "sami"
+        else:
+            tt, flat, doc, tree, stats = gen_dfxp_doc(rng)
+            src = "dfxp"
+        via = rng.choice(["sami", "sami", "main", "single", "legacy"])
+        out.append(("F", {"op": "pipeline", "src": src, "doc": doc, "via": via}, {"src": src, "via": via}))
+    head = ('<SAMI><HEAD><STYLE TYPE="text/css"><!-- .FRCC {lang: fr;} .ENCC {lang: en;} .NARROW {margin-left: 5%;} --></STYLE>'
+            '</HEAD><BODY>')
+    for body in ('<SYNC start=1000><P class=ENCC>e1<P lang=fr>f1</SYNC>', '<SYNC start=1000><P class=ENCC>e1<P lang=fr class=ENCC>f1</SYNC>',
+                 '<SYNC start=1000><P class=ENCC>e1<P class=NARROW lang=fr>f1</SYNC>',
+                 '<SYNC start=0><P class=FRCC>&nbsp;<P class=ENCC>e1</SYNC><SYNC start=2000><P class=FRCC>f1</SYNC>'):
+        for via in ("sami", "main"):
+            out.append(("F", {"op": "pipeline", "src": "sami", "doc": head + body + "</BODY></SAMI>", "via": via},
+                        {"src": "sami", "via": via, "fixed": True}))
+    items = [(tag, job, make_reqs(tag, info, default), info) for tag, job, info in out]
+    return items + history_items(ctx, default)
 
 
 def history_items(ctx, default):
     """2-3 step write histories on ONE writer object (SAMI, the three DFXP writers, WebVTT) over caption sets with
-    different language lists / orders and interleaved cue times; every document is judged like a single write.
-    Items of one history carry the same "hist" id; run() sends them to the worker as one `history` job."""
+    different language lists / orders and interleaved cue times; every document is judged like a single write."""
     rng = ctx.rng
     items = []
     fixed = [[["en-US", "fr"], ["de", "en-US", "fr"]], [["fr", "en-US"], ["en-US"], ["en-US", "fr", "de"]]]
     n = ctx.n(40, 600)
     for h in range(n + len(fixed)):
         kind = rng.choice(["sami", "sami", "dfxp", "vtt"])
-        steps = rng.randint(2, 3)
         langlists = fixed[h - n] if h >= n else None
         writer = rng.choice(["main", "single", "legacy"])
-        for k in range(steps if langlists is None else len(langlists)):
-            cs, shape = gen_capset(rng)
+        for k in range(rng.randint(2, 3) if langlists is None else len(langlists)):
+            cs, styles, shape, flags = gen_capset(rng, concurrent=(kind == "dfxp"))
             if langlists is not None:
-                kind = "sami"
+                kind, styles = "sami", None
                 cs = [[l, [[s0 + 137000 * i, e0 + 137000 * i, "%s h%d" % (l.replace("-", ""), j)] for j, (s0, e0) in
                            enumerate(gen_times(rng, 3, "interleaved", i))]] for i, l in enumerate(langlists[k])]
             elif rng.random() < 0.5:
                 rng.shuffle(cs)
             if kind == "sami":
-                tag, job, info = "D", {"op": "sami_write", "cs": cs}, {"cs": cs, "shape": shape}
+                tag, job, info = sami_job(cs, styles, shape, flags)
             elif kind == "dfxp":
-                force = rng.choice([None, "", cs[0][0], "xx"])
-                tag, job = "B", {"op": "dfxp_write", "writer": writer, "force": force, "cs": cs}
-                info = {"cs": start_text(cs), "force": force or "", "writer": writer, "shape": shape}
+                tag, job, info = dfxp_job(rng, cs, styles, shape, flags, writer=writer, force=rng.choice([None, "", cs[0][0], "xx"]))
             else:
                 pick = rng.choice([None, cs[-1][0]])
                 job = {"op": "vtt_write", "cs": cs}
                 if pick is not None:
                     job["lang"] = pick
-                tag, info = "E", {"cs": start_text(cs), "pick": pick}
+                tag, info = "E", {"cs": ms_floor(start_text(cs)), "pick": pick}
             info = dict(info, hist=h, step=k)
             items.append((tag, job, make_reqs(tag, info, default), info))
     return items
 
 
+# ------------------------------------------------------------------------------------------------ judging
+def resolve_body(body, sheet):
+    """class -> language through the WRITTEN stylesheet (a later block of the same class wins, as in the reader)"""
+    m = {}
+    for cls, lang in sheet:
+        m[cls.lower()] = lang
+    return [[s, [[m.get((c or "").lower(), "?class:%s" % c), t] for c, t in ps]] for s, ps in body]
+
+
+def no_blanks(body):
+    return [[s, [p for p in ps if p[1] != "&nbsp;"]] for s, ps in body if any(p[1] != "&nbsp;" for p in ps)]
+
+
 def judge(acc, cfg, items, obs, models):
     default = cfg["default"]
-    oracle_reqs = []
-    pending = []
-    k = 0
+    oracle_reqs, pending, k = [], [], 0
     for (tag, job, reqs, info), o in zip(items, obs):
         m = models[k:k + len(reqs)]
         k += len(reqs)
@@ -313,12 +463,21 @@ def judge(acc, cfg, items, obs, models):
             acc.count("H_later_steps_on_a_used_writer")
         inp = {"config": cfg, "job": job, "tag": tag, "info": info}
         if "err" in o:
+            if tag == "F" and o["err"] in ("CaptionReadNoCaptions",):
+                acc.count("F_source_document_without_cues")
+                continue
+            if tag == "A" and o["err"] == "CaptionReadNoCaptions" and not any(c for _, c in info["pdivs"]):
+                acc.count("A_document_without_cues(refused as documented)")
+                continue
+            if tag == "C" and o["err"] == "CaptionReadNoCaptions" and all(b for _, _, b in info["tags_cut"]):
+                acc.count("C_document_with_blank_paragraphs_only(refused as documented)")
+                continue
             acc.viol("raises", "%s raised %s: %s" % (job["op"], o["err"], o.get("msg", "")), inp, stream=tag)
             continue
         if tag == "A":
             got = as_capset(o["langs"])
             pending.append((tag, inp, info, got, m[0]))
-            oracle_reqs.append((1401, [default, opt(info["tt"]), [[opt(o), c] for o, c in info["pdivs"]], got]))
+            oracle_reqs.append((1401, [default, opt(info["tt"]), [[opt(x), c] for x, c in info["pdivs"]], got]))
         elif tag == "B":
             got = [[l, cues] for l, cues in o["divs"]]
             pending.append((tag, inp, info, (o["tt"], got, o.get("reread"), o.get("reread_err")), m[0]))
@@ -327,14 +486,14 @@ def judge(acc, cfg, items, obs, models):
             oracle_reqs.append((1401, [default, opt(o["tt"]), [[opt(l), c] for l, c in got], rr]))
         elif tag == "C":
             got = as_capset(o["langs"])
-            tagged = [[t[0], t[1]] for t in m[0][1] if t[2] == 0]
             pending.append((tag, inp, info, got, m[0]))
-            oracle_reqs.append((1406, [tagged, got]))
+            oracle_reqs.append((1406, [info["tags_cut"], got]))
+            oracle_reqs.append((1406, [info["tags_full"], got]))
         elif tag == "D":
-            body = [[s, [[c, t] for c, t in ps]] for s, ps in o["body"]]
-            pending.append((tag, inp, info, (body, o["classes"], o.get("reread"), o.get("reread_err")), m[0]))
+            body = resolve_body(o["body"], o["sheet"])
+            pending.append((tag, inp, info, (body, o["sheet"], o.get("reread"), o.get("reread_err")), m))
             oracle_reqs.append((1408, [start_text(info["cs"]), body]))
-            tagged = [[c, [s * 1000, t]] for s, ps in body for c, t in ps if t != "&nbsp;"]
+            tagged = [[c, [s * 1000, t if t != "&nbsp;" else " "], t == "&nbsp;"] for s, ps in body for c, t in ps]
             oracle_reqs.append((1406, [tagged, as_capset(o["reread"]) if "reread" in o else []]))
         elif tag == "E":
             pending.append((tag, inp, info, o["cues"], m[0]))
@@ -347,27 +506,37 @@ def judge(acc, cfg, items, obs, models):
             else:
                 acc.res["nontrivial"].add(("E2", json.dumps(info["cs"])))
         elif tag == "E3":
-            want = info["lang"] if info["lang"] is not None else (o["default"] if info["fmt"] == "microdvd" else "en-US")
-            if [l for l, n in o["langs"]] != [want] or o["langs"][0][1] < 1:
-                acc.viol("reader-lang-option", "%s reader lang=%r returned languages %r" % (info["fmt"], info["lang"], o["langs"]),
-                         inp, stream=tag)
+            got = [l for l, n in o["langs"]]
+            if info["lang"] is not None:
+                if got != [info["lang"]] or o["langs"][0][1] < 1:
+                    acc.viol("reader-lang-option", "%s reader lang=%r returned languages %r" % (info["fmt"], info["lang"], o["langs"]),
+                             inp, stream=tag)
+            else:
+                # which language an omitted lang= yields is not fixed by the statement: counted only
+                acc.count("E3_default_of_omitted_lang=%s:%s" % (info["fmt"], got[0] if got else None))
+                if len(got) != 1:
+                    acc.viol("reader-lang-option", "%s reader without lang= returned languages %r" % (info["fmt"], o["langs"]), inp, stream=tag)
             if o["default"] != default:
                 acc.res["disagreements"].append({"stream": "E3", "what": "DEFAULT_LANGUAGE_CODE %r, expected %r" % (o["default"], default)})
+        elif tag == "F":
+            judge_pipeline(acc, inp, info, o)
     oks = oracle_batch(oracle_reqs)
     j = 0
     for tag, inp, info, got, m in pending:
         if tag == "A":
             dom, ok = oks[j]
             j += 1
-            if not dom:
-                acc.count("A_duplicate_language_outside_domain")
-            elif not ok:
+            if not ok:
                 acc.viol("dfxp-div-language", "DFXPReader: languages / cue lists %r for tt=%r divs=%r" % (got, info["tt"], info["pdivs"]), inp, stream=tag)
                 continue
-            if got != m:
-                acc.dis(tag, inp, got, m)
-            elif dom:
+            if got != as_capset(m[0]) or [[unopt(x), c] for x, c in m[1]] != info["pdivs"]:
+                acc.dis(tag, inp, got, m, "model (tree read / segments) differs from the reader / the generator's segments")
+            else:
                 acc.res["nontrivial"].add(("A", json.dumps(inp["job"])))
+                for k, v in info["stats"].items():
+                    acc.count("A_" + k, v)
+                langs = [x if x is not None else (info["tt"] if info["tt"] is not None else "\0default") for x, _ in info["pdivs"]]
+                acc.count("A_repeated_language", int(len(set(langs)) < len(langs)))
                 acc.count("A_fallback_to_tt", int(info["tt"] is not None and any(d[0] is None for d in info["pdivs"])))
                 acc.count("A_fallback_to_default", int(info["tt"] is None and any(d[0] is None for d in info["pdivs"])))
         elif tag == "B":
@@ -375,7 +544,7 @@ def judge(acc, cfg, items, obs, models):
             j += 2
             tt, divs, rr, rr_err = got
             if not ok:
-                acc.viol("dfxp-write-languages", "%s writer force=%r wrote divs %r" % (info["writer"], info["force"], [d[0] for d in divs]),
+                acc.viol("dfxp-write-languages", "%s writer force=%r wrote divs %r for %r" % (info["writer"], info["force"], divs, info["cs"]),
                          inp, stream=tag, divs=divs)
                 continue
             if rr_err == "CaptionReadNoCaptions" and not any(c for _, c in divs):
@@ -386,51 +555,63 @@ def judge(acc, cfg, items, obs, models):
             mdoc = m[1] if info["writer"] == "legacy" and m[0] == 0 else m
             mtt = mdoc[0][0] if mdoc[0] else None
             mdivs = [[d[0][0], d[1]] for d in mdoc[1]]
-            if mdivs != divs or mtt != tt:
-                acc.dis(tag, inp, [tt, divs], [mtt, mdivs])
+            acc.count("B_tt_language_differs_from_model(not part of the statement)", int(mtt != tt))
+            if mdivs != divs:
+                acc.dis(tag, inp, divs, mdivs)
             else:
                 acc.res["nontrivial"].add(("B", json.dumps(inp["job"])))
                 acc.count("B_force_present", int(info["force"] in [l for l, _ in info["cs"]]))
                 acc.count("B_shape_" + info["shape"])
+                acc.count("B_equal_span_runs", int(bool(info["flags"].get("equal_spans"))))
+                acc.count("B_styled_sets", int(bool(info["flags"].get("styled"))))
         elif tag == "C":
-            ok = oks[j]
-            j += 1
-            if not ok:
-                acc.viol("sami-read-languages", "SAMIReader: languages / cue lists %r" % (got,), inp, stream=tag)
+            ok_cut, ok_full = oks[j], oks[j + 1]
+            j += 2
+            if not (ok_cut or ok_full):
+                acc.viol("sami-read-languages", "SAMIReader: languages / cue lists %r, expected grouping of %r" % (got, info["tags_cut"]),
+                         inp, stream=tag)
                 continue
+            acc.count("C_inline_lang_kept_whole(full reading)", int(ok_full and not ok_cut))
             if got != m[0]:
                 acc.dis(tag, inp, got, m[0])
             else:
                 acc.res["nontrivial"].add(("C", json.dumps(inp["job"])))
-                acc.count("C_prefix_shapes(en/en-US both present)", int(m[0] != m[2]))
-                nolang = {c for c, l in info["styles"] if l is None} | {"unknown"}
+                seen = set()
+                for l, _, blank in info["tags_cut"]:
+                    if l not in seen and blank:
+                        acc.count("C_language_whose_first_paragraph_is_blank")
+                    seen.add(l)
                 for attrs, _, _ in info["ps"]:
                     names = [a.lower() for a, _ in attrs]
                     if names == ["class", "lang"]:
-                        acc.count("C_p_class_without_lang_then_inline_lang" if attrs[0][1].lower() in nolang
-                                  else "C_p_class_with_lang_then_inline_lang")
+                        acc.count("C_p_class_then_inline_lang")
                     elif names == ["lang", "class"]:
                         acc.count("C_p_inline_lang_then_class")
-                    elif names == ["lang"]:
-                        acc.count("C_p_inline_lang_only")
         elif tag == "D":
             ok, ok2 = oks[j], oks[j + 1]
             j += 2
-            body, classes, rr, rr_err = got
+            body, sheet, rr, rr_err = got
             if not ok:
-                acc.viol("sami-sync-placement", "SAMIWriter body %r" % (body,), inp, stream=tag)
+                acc.viol("sami-sync-placement", "SAMIWriter body (classes resolved to languages through the written stylesheet) %r for %r"
+                         % (body, info["cs"]), inp, stream=tag)
                 continue
-            if classes != [l for l, _ in info["cs"]]:
-                acc.viol("sami-language-classes", "stylesheet classes %r for languages %r" % (classes, [l for l, _ in info["cs"]]), inp, stream=tag)
-                continue
-            if rr_err or not ok2:
+            if rr_err == "CaptionReadNoCaptions" and not any(c for _, c in info["cs"]):
+                pass
+            elif rr_err or not ok2:
                 acc.viol("sami-reread-languages", "re-reading the SAMI output gives %r (%s)" % (rr, rr_err), inp, stream=tag)
                 continue
-            if body != m:
-                acc.dis(tag, inp, body, m)
+            if no_blanks(body) != no_blanks(m[0]):
+                acc.dis(tag, inp, body, m[0], "paragraph placement differs from the model")
+            elif body != m[0]:
+                acc.dis(tag, inp, body, m[0], "blank-paragraph placement differs from the model (C02's rule; not part of C14's statement)")
+            elif [list(x) for x in sheet] != [list(x) for x in m[1][1]]:
+                acc.dis(tag, inp, sheet, m[1][1], "written stylesheet language blocks differ from model sheet_langs")
             else:
                 acc.res["nontrivial"].add(("D", json.dumps(inp["job"])))
                 acc.count("D_shape_" + info["shape"])
+                acc.count("D_styled_sets", int(bool(info["flags"].get("styled"))))
+                acc.count("D_same_text_in_several_languages", int(bool(info["flags"].get("same_text"))))
+                acc.count("D_equal_span_runs", int(bool(info["flags"].get("equal_spans"))))
                 acc.count("D_secondary_sync_inserted", int(len(info["cs"]) > 1))
         elif tag == "E":
             ok = oks[j]
@@ -445,17 +626,59 @@ def judge(acc, cfg, items, obs, models):
                 acc.res["nontrivial"].add(("E", json.dumps(inp["job"])))
 
 
+def judge_pipeline(acc, inp, info, o):
+    """reader -> writer -> reader: every language keeps exactly its cue list (to the format's resolution: SAMI and DFXP
+    times are milliseconds); a language without cues may disappear; DFXP keeps the language order, SAMI re-read order is
+    the order of first paragraphs (decision xi)"""
+    first = {l: c for l, c in o["first"]}
+    if "" in first:
+        # xml:lang="" : no SAMI class can carry it and it coincides with the DFXP writers' default force=''
+        acc.count("F_excluded_empty_language_code")
+        return
+    if info["via"] == "sami" and not all(all(a[0] <= a[1] <= b[0] for a, b in zip(c, c[1:])) and all(x[0] <= x[1] for x in c)
+                                         for c in first.values()):
+        # the quantifier: "cues are sorted and non-overlapping within a language" (SAMI re-orders by time)
+        acc.count("F_excluded_language_not_sorted_for_SAMI")
+        return
+    if "reread" not in o:
+        if o.get("reread_err") == "CaptionReadNoCaptions" and not any(first.values()):
+            return
+        acc.viol("pipeline-reread-raises", "%s -> %s -> read raised %s" % (info["src"], info["via"], o.get("reread_err")), inp, stream="F")
+        return
+    again = {l: c for l, c in o["reread"]}
+    src = [[l, c] for l, c in o["first"]]
+    if info["via"] in ("single", "legacy"):
+        src = merged(src)              # these writers merge runs of equal (start, end)
+    want = {l: [[c[0] // 1000 * 1000, c[2]] for c in cues] for l, cues in src}
+    nonempty = lambda d: {l: c for l, c in d.items() if c}  # noqa: E731
+    if nonempty(want) != nonempty(again):
+        moved = [l for l in set(want) | set(again) if want.get(l, []) != again.get(l, [])]
+        acc.viol("pipeline-cue-moved", "%s document -> %s writer -> reader: languages %r changed: read %r, re-read %r"
+                 % (info["src"], info["via"], moved, o["first"], o["reread"]), inp, stream="F")
+        return
+    if info["via"] != "sami" and [l for l, c in o["first"] if c] != [l for l, c in o["reread"] if c]:
+        acc.viol("pipeline-language-order", "language order changed: %r -> %r" % ([l for l, _ in o["first"]], [l for l, _ in o["reread"]]),
+                 inp, stream="F")
+        return
+    acc.res["nontrivial"].add(("F", json.dumps(inp["job"])))
+    acc.count("F_pipelines_ok_%s_via_%s" % (info["src"], info["via"]))
+
+
 def configs(ctx):
-    c = [{"default": "und", "env": None, "hashseed": 0}, {"default": "en-US", "env": "en-US", "hashseed": 1}]
+    c = [{"default": "und", "env": None, "hashseed": 0}, {"default": "en-US", "env": "en-US", "hashseed": 1},
+         {"default": "zh-Hans", "env": "zh-Hans", "hashseed": 0}]
     if ctx.thorough:
         c += [{"default": "und", "env": None, "hashseed": s} for s in (2, 3, 17, 4242)]
+        c += [{"default": "x", "env": "x", "hashseed": 3}, {"default": "en-US", "env": "en-US", "hashseed": 17}]
     return c
 
 
 def run(ctx):
     acc = Acc()
-    for cfg in configs(ctx):
+    for ci, cfg in enumerate(configs(ctx)):
         items = stream_jobs(ctx, cfg["default"])
+        if ci >= 2 and not ctx.thorough:
+            items = [it for k, it in enumerate(items) if it[0] in ("A", "C", "E3", "F") and k % 2 == 0 and it[3].get("hist") is None]
         jobs, slots = [], []
         for it in items:
             h = it[3].get("hist")
@@ -470,7 +693,7 @@ def run(ctx):
                 jobs.append({"op": "history", "hist": h, "steps": [it[1]]})
         for it, (j, k) in zip(items, slots):
             if k is not None:
-                it[3]["hist_jobs"] = jobs[j]["steps"][:k + 1]       # for replay: the history up to this step
+                it[3]["hist_jobs"] = jobs[j]["steps"][:k + 1]
         raw = run_worker(jobs, cfg["env"], cfg["hashseed"], ctx.repo)
         obs = [raw[j] if k is None else raw[j]["steps"][k] for j, k in slots]
         models = oracle_batch([r for it in items for r in it[2]])
@@ -478,24 +701,25 @@ def run(ctx):
     res = acc.res
     res["distribution"]["configs"] = [(c["env"], c["hashseed"]) for c in configs(ctx)]
     res["samples"] = [json.loads(x[1]) for x in list(res["nontrivial"])[:4]]
-    res["rule"] = ("distinct (stream, job) pairs whose observation equals the model and satisfies the oracle; A: DFXP "
-                   "documents with 1-4 divs (own / document / default language); B: caption sets of 1-4 languages "
-                   "(interleaved, coinciding, disjoint times) x 3 DFXP writers x force; C: SAMI documents with class / "
-                   "lang-attribute / default languages incl. en + en-US; D: SAMI writer bodies; E: WebVTT lang=, SRT, "
-                   "reader lang=")
+    res["rule"] = ("distinct (stream, job) pairs whose observation satisfies the oracle and equals the model. A: DFXP documents "
+                   "(1-5 divs, repeated languages, nested divs, own / document / default language); B: caption sets of 1-4 languages "
+                   "(interleaved, coinciding, disjoint times, equal-span runs, styles and classes) x 3 DFXP writers x force; C: SAMI "
+                   "documents (class / inline lang / default in every order, blank paragraphs anywhere); D: SAMI writer bodies; "
+                   "E: WebVTT lang=, SRT, reader lang=; F: reader -> writer -> reader pipelines; H: histories on one writer")
     res["clauses"] = {
-        "theorem": ["DFXP div language = own xml:lang, else the document's, else the default; languages in order of "
-                    "first appearance (all documents)", "DFXP write order and force= select exactly the named language; "
-                    "write-then-read returns the same languages and cue lists",
-                    "SAMI read: languages in order of first appearance, no repetition; every non-blank paragraph in "
-                    "exactly the list of its language (count preserved)", "prefix selection refuted (en / en-US witness)",
-                    "SAMI write: body sorted whenever the first language's cues are sorted; every paragraph in a "
-                    "block of its own start; earlier paragraphs never move; every language's paragraphs = its cue "
-                    "sequence in order (all sorted sets, distinct language names)", "WebVTT lang= picks that language's list"],
-        "correspondence_only": ["bs4 / lxml / html.parser / cssutils / soupsieve layers (documents <-> the abstract "
-                                "inputs of the model)", "PYCAPTION_DEFAULT_LANG and hash seed (worker processes)",
-                                "SRT / MicroDVD / SCC reader lang= labelling", "SAMI re-read language order"]}
-    res["trusted_extra"] = ["harness/c14_worker.py (observation of outputs with lxml / bs4)"]
+        "theorem": ["DFXP read model = grouping by effective language for EVERY document (repeated / nested divs included); model "
+                    "meets the oracle", "DFXP / legacy write, WebVTT pick: model meets the oracle (distinct language names)",
+                    "SAMI read model = grouping of the tagged paragraphs, blank paragraphs counting for the order only; model meets the oracle",
+                    "SAMI write: the model's body satisfies the WHOLE oracle ok_sami_body (sorted, per-language cue lists, no foreign "
+                    "paragraph) for sets with distinct names, sorted languages, no cue text '&nbsp;'; never-mix for all inputs",
+                    "class layer: the class written for a paragraph resolves, through the written stylesheet, to its language"],
+        "correspondence_only": ["bs4 / lxml / html.parser / cssutils layers (documents <-> abstract inputs of the model)",
+                                "how a SAMI paragraph gets its language from its attributes (model find_lang; the oracle's tags are the "
+                                "generator's)", "PYCAPTION_DEFAULT_LANG (unset, en-US, zh-Hans; thorough also x) and hash seeds",
+                                "merge of equal (start, end) runs by the single-positioning / legacy writers (joined by the harness)",
+                                "SRT parts, reader lang= labelling, reader -> writer -> reader pipelines (stream F, oracle in Python: "
+                                "per-language cue lists equal to the format's resolution)"]}
+    res["trusted_extra"] = ["harness/c14_worker.py (observation of outputs with lxml / bs4; stylesheet blocks by regular expression)"]
     return res
 
 
